@@ -25,6 +25,11 @@ Proof. exact run_ok. Qed.
 Theorem C01_table_invariant_initially : forall E, table_ok E [].
 Proof. exact table_ok_nil. Qed.
 
+(* The invariant contains the invariant of the per-flow prefix buffers (octets, at most
+   PENDING_MAX of them) under which the well-formedness results of C04 are stated. *)
+Theorem C01_table_invariant_pending : forall E tb, table_ok E tb -> table_pending_ok tb.
+Proof. exact table_ok_pending. Qed.
+
 (* The closed forms: the length hypothesis is discharged by the amplification bound
    (every application reply is at most 7 * |request| + 4500 bytes when the dumped constants are
    shorter than 2048 bytes -- env_small, re-decided per run -- and the date string has at most 64 bytes). *)
@@ -53,3 +58,4 @@ Print Assumptions C01_current_env_small.
 Print Assumptions C01_no_panic.
 Print Assumptions C01_histories.
 Print Assumptions C01_table_invariant_initially.
+Print Assumptions C01_table_invariant_pending.
